@@ -408,3 +408,96 @@ def c13(root, combined, pieces, excl, flags, use_kw, slots):
 
 def c13_classify(params, tree, res):
     return None
+
+
+# ---------------------------------------------------------------------------------------------------------
+# C16: pathlib methods are faithful views of wcmatch.glob
+
+def c16(root, pat, flags, sub, slots):
+    """sub: slot (relative directory) used as the path object's location ('' = the root itself)."""
+    from wcmatch import glob as G, pathlib as P
+    viol = []
+    base = os.path.join(root, sub) if sub else root
+    pobj = P.Path(base)
+    pats = pat
+    unique = not flags & G.NOUNIQUE
+    old = os.getcwd()
+    os.chdir('/')
+    try:
+        if not os.path.isdir(base):
+            # glob on a non-directory path object yields nothing
+            r = _call(lambda: list(pobj.glob(pats, flags=flags)))
+            if r not in ([],) and not (isinstance(r, str)):
+                viol.append(f'Path({sub!r}).glob on a non-directory returned {r}')
+            return {'viol': viol, 'obs': None}
+        plist = [pats] if isinstance(pats, str) else list(pats)
+        is_abs = any(p.startswith('/') or (flags & G.BRACE and ',/' in p) or (flags & G.SPLIT and '|/' in p) for p in plist)
+        got = _call(lambda: list(pobj.glob(pats, flags=flags)))
+        rgot = _call(lambda: list(pobj.rglob(pats, flags=flags)))
+        if is_abs:
+            if got != 'EXC:ValueError':
+                viol.append(f'Path.glob with an absolute pattern did not raise ValueError: {got}')
+            if rgot != 'EXC:ValueError':
+                viol.append(f'Path.rglob with an absolute pattern did not raise ValueError: {rgot}')
+            return {'viol': viol, 'obs': (str(got), str(rgot))}
+        if isinstance(got, str) or isinstance(rgot, str):
+            return {'viol': [f'Path.glob/rglob raised {got} / {rgot}'], 'obs': (str(got), str(rgot))}
+        if any(str(x).count('/') > 24 for x in got + rgot):
+            return {'viol': [], 'obs': None, 'eloop': True}
+        ref = _call(G.glob, pats, flags=flags | G.FORCEUNIX, root_dir=base)
+        if isinstance(ref, str):
+            return {'viol': [f'glob.glob raised {ref} but Path.glob returned {got}'], 'obs': ref}
+        want = {pobj.joinpath(x) for x in ref}
+        if set(got) != want:
+            viol.append(f'Path({sub!r}).glob({pats!r}) = {sorted(map(str, set(got)))} but glob.glob joined = {sorted(map(str, want))}')
+        if unique and len(got) != len(set(got)):
+            viol.append(f'Path.glob returned a file twice: {sorted(map(str, got))}')
+        if unique and len(rgot) != len(set(rgot)):
+            viol.append(f'Path.rglob returned a file twice: {sorted(map(str, rgot))}')
+        # user-supplied platform flags are ignored
+        got_w = _call(lambda: list(pobj.glob(pats, flags=flags | G.FORCEWIN)))
+        if got_w != got:
+            viol.append(f'FORCEWIN changed Path.glob: {got_w} vs {got}')
+        # rglob = the same pattern with an implicit leading recursive segment
+        if isinstance(pats, str) and not flags & (G.BRACE | G.SPLIT | G.NEGATE):
+            ref2 = _call(G.glob, '**/' + pats, flags=flags | G.GLOBSTAR | G.FORCEUNIX, root_dir=base)
+            if isinstance(ref2, list):
+                want2 = {pobj.joinpath(x) for x in ref2}
+                if set(rgot) != want2:
+                    viol.append(f'Path({sub!r}).rglob({pats!r}) = {sorted(map(str, set(rgot)))} but glob("**/"+p) joined = {sorted(map(str, want2))}')
+        # globmatch / full_match of concrete paths = glob.globmatch on the path string (+ separator for directories)
+        os.chdir(base)
+        rg_here = set(_call(lambda: [str(x) for x in P.Path('.').rglob(pats, flags=flags)]) or [])
+        for s in slots:
+            q = P.Path(s)
+            if not os.path.lexists(s):
+                continue
+            name = s + ('/' if os.path.isdir(s) else '')
+            a = _call(q.globmatch, pats, flags=flags)
+            b = _call(G.globmatch, name, pats, flags=flags | G.FORCEUNIX)
+            c = _call(q.full_match, pats, flags=flags)
+            if a != b or c != b:
+                viol.append(f'Path({s!r}).globmatch={a} full_match={c} but glob.globmatch({name!r})={b}')
+            m = _call(q.match, pats, flags=flags | G.REALPATH)
+            dotseg = isinstance(pats, str) and any(c in ('.', '..') for c in pats.split('/'))
+            if isinstance(m, bool) and isinstance(pats, str) and not flags & G.SCANDOTDIR and not dotseg and m != (s in rg_here):
+                viol.append(f'Path({s!r}).match({pats!r}, REALPATH)={m} but Path(".").rglob yields it: {s in rg_here}')
+        return {'viol': viol, 'obs': (sorted(map(str, got)), sorted(map(str, rgot)))}
+    finally:
+        os.chdir(old)
+
+
+def c16_classify(params, tree, res):
+    import re
+    pat, flags, sub = params
+    from wcmatch import glob as G
+    if isinstance(pat, str) and pat.startswith('**') and not flags & G.DOTGLOB:
+        # PurePath.match('**...') accepts hidden segments (the ** after the implicit right-anchoring prefix is not dot-guarded)
+        ok = True
+        for m in res['viol']:
+            mm = re.match(r"Path\('([^']*)'\)\.match\(.*REALPATH\)=True but Path\(\"\.\"\)\.rglob yields it: False", m)
+            if not (mm and any(c.startswith('.') for c in mm.group(1).split('/'))):
+                ok = False
+        if ok and res['viol']:
+            return 'match-leading-globstar-accepts-hidden'
+    return None
